@@ -262,6 +262,16 @@ def loc(fi: FuncInfo, node: ast.AST | None = None) -> str:
     return f'{fi.file}:{fi.qualname}:{line}'
 
 
+def where_of(repo, module: str, *qualnames: str) -> str:
+    """Location for a report: the first of the named functions that exists (private helpers come and go), else the module."""
+    for q in qualnames:
+        try:
+            return loc(repo.func(module, q))
+        except AnalysisError:
+            continue
+    return f'{repo.module(module).path.split("/src/")[-1]}:<module>'
+
+
 def norm_text(node: ast.AST) -> str:
     """Normalised statement text: stable across formatting, used in finding keys."""
     return ast.unparse(node)
